@@ -127,6 +127,13 @@ CLAIMS = {
              "Tie: the same definition instantiated at Float, compared with numpy to 1e-9 on speed x altitude grids and coordinate pairs; 0.1% ISA check against the closed form.",
         note="IEEE rounding / libm are not modelled (Float instance is compared, real instance is proved); 0.1% ISA agreement is a numeric check, not a theorem.",
         design="8 C20", technique="Lean 4 + Mathlib proof over R + Float-instance correspondence"),
+    "C15": dict(
+        text="Cython cannot be run here, so the current c_common.pyx text is transliterated to Python with C integer semantics; the transliterator is validated on every run "
+             "against the shipped .so (built from the pinned .pyx) and then applied to the current text. Streams: every shared function on its whole domain (13-bit codes exhaustive, "
+             "DF x TC, floats, frames in both cases) against py_common modulo the sentinel map; the Lean C-semantics model (Model/CCommon.lean) against the transliteration; decoders "
+             "re-run with the C module swapped in. Theorems: C-model = Python model modulo sentinels (Properties/C15.lean). One open finding (sentinel leaks through callers) is reported as KNOWN-FINDING.",
+        note="a recompiled extension cannot be observed; cprNL/floor floating-point behaviour of libm is compared through Python's math module.",
+        design="8 C15, 4.3", technique="Lean 4 proof (C-semantics twin) + transliteration validated against the shipped binary + correspondence"),
 }
 
 
